@@ -136,7 +136,10 @@ def same_call(it, a, b):
     from pyvc.api import value_matches, conj
     if len(a.args) != len(b.args):
         return False
-    return conj([value_matches(it, x, y) for x, y in zip(a.args, b.args)])
+    ka, kb = getattr(a, 'kwargs', None) or {}, getattr(b, 'kwargs', None) or {}
+    if set(ka) != set(kb):
+        return False           # (the same keyword arguments, by name)
+    return conj([value_matches(it, x, y) for x, y in zip(a.args, b.args)] + [value_matches(it, ka[k], kb[k]) for k in sorted(ka)])
 
 
 # ------------------------------------------------------------------------------------------------ schema_validator
